@@ -187,7 +187,7 @@ def finish(ctx, explanation, not_decided):
         "wall_s": round(time.time() - ctx.t0, 3),
         "violations": len(new),
     }
-    if ctx.only_rule is None:
+    if ctx.only_rule is None and not getattr(ctx, 'no_evidence', False):
         os.makedirs(os.path.join(VERIF, "evidence"), exist_ok=True)
         with open(os.path.join(VERIF, "evidence", "%s.json" % ctx.prop), "w") as fh:
             json.dump(ev, fh, indent=1, default=str)
